@@ -36,9 +36,13 @@
     select (worker `w`), per epoll event:
                 deliver   io_flag.fetch_or(bits, Release)   w.sTake co.take()   w.sDis disarm timer; schedule
     timeout_handler (worker `w`, from timer_list.schedule_timer):
-                fire      event_data null ? return : timer.take()            w.fTake co.take(); set TimedOut; run_coroutine
+                fire      event_data null ? return : timer.take()     w.fOr io_flag.fetch_or(IO_FLAG_TIMEOUT, Release)
+                w.fTake   co.take(); set TimedOut; run_coroutine      (a `subscribe` that had armed this timer but not yet published
+                          its coroutine sees the flag in its re-check, re-runs the coroutine, which retries and arms a fresh timer)
     Cancel::cancel (any thread, or the kernel tail itself after its re-check):
-                cancel    state.fetch_or(1)   x.io  CancelIoImpl.take()   x.take  io.co.take(); schedule   (timer NOT disarmed)
+                cancel    state.fetch_or(1)   x.io  CancelIoImpl.take()   x.take  io.co.take(); disarm_timer(); schedule
+    (`St.fixFlag` / `St.fixDis` = false give the pinned tree – no flag from the handler, timer left armed by cancel – for the
+     labelled defect witnesses; every theorem is about `init`, the fixed code of /repo HEAD)
 
   The coroutine is a linear token: running / on its way in kernel tail k / in `co` slot of s / taken by a kernel tail or a
   worker / queued. `loc` is the ghost that says where it is; `dup` / `bad` record a double schedule / a resume of a coroutine that
@@ -93,6 +97,12 @@ inductive KPc
   | dis (s : Sock) (c : Co)
   | reg (s : Sock) (c : Co)
   | chk (c : Co)
+  -- the variant with pending_fixes/io-stale-set_io.patch (`St.regFirst`): register for cancel BEFORE publication, the re-check
+  -- takes the tail's own slot (`EventData::schedule`)
+  | reg0 (s : Sock) (c : Co) (r : Bool)
+  | chk2 (s : Sock) (c : Co)
+  | own (s : Sock)
+  | ownDis (s : Sock) (c : Co)
   | xor (c : Co)
   | xio (c : Co)
   | xtake (s : Sock)
@@ -103,6 +113,7 @@ inductive WPc
   | idle
   | sTake (s : Sock)
   | sDis (s : Sock) (c : Co)
+  | fOr (s : Sock) (t : Tm)        -- timeout_handler after `timer.take()`: `io_flag.fetch_or(IO_FLAG_TIMEOUT)`
   | fTake (s : Sock) (t : Tm)
   | xio (c : Co)
   | xtake (s : Sock)
@@ -153,18 +164,28 @@ structure St where
   kpc : Kt → KPc
   nk : Kt
   wpc : Wk → WPc
+  -- which code: the tree with the fixes 999f25c (`timeout_handler` raises IO_FLAG_TIMEOUT before its `co.take`) and 8f0e7f9
+  -- (`CancelIoImpl::cancel` disarms the io timer) – both true – or the pinned tree without them (witnesses only)
+  fixFlag : Bool
+  fixDis : Bool
+  -- the io subscribes register for cancel before they publish the coroutine (pending_fixes/io-stale-set_io.patch; false = /repo HEAD)
+  regFirst : Bool
   -- ghost
   loc : Co → Loc
   dup : Bool                       -- a coroutine was scheduled while already queued
   bad : Bool                       -- a coroutine was resumed while it was not switched off
   lastStore : Sock → Kt
   lastFetch : Sock → Wk
+  lastFire : Sock → Wk
+  lastArm : Sock → Option Tm       -- the entry armed by the latest `add_io_timer` on this socket
   armedAt : Tm → Nat
   tdur : Tm → Nat
   firedBy : Co → Tm                -- the timer entry that timed this caller out
   waitFrom : Co → Nat              -- time at which the current wait began (kernel tail started)
 
 def msToNs (ms : Nat) : Nat := ms * 1000000
+/-- `IO_FLAG_TIMEOUT` (src/io/sys/unix/mod.rs): the bit the timeout handler raises in `io_flag`; no epoll event uses it -/
+def timeoutBit : Nat := 1073741824
 /-- `AtomicDuration::store(Some(d))` (src/sync/atomic_dur.rs `to_millis`, since the F2 fix): rounded UP to whole milliseconds and
     at least 1 (0 encodes "no time-out"); the saturation at `usize::MAX` ms is not modelled -/
 def durToMs (ns : Nat) : Nat := max 1 ((ns + 999999) / 1000000)
@@ -206,11 +227,14 @@ def ustep (st : St) (c : Co) : UPc → Env → Option St
         some { st with user := upd st.user s (some c), dur := upd st.dur c none,
                        upc := upd st.upc c (if rs then .reset s else .sys s true) }
       else none
+  -- (a socket is dropped only when no operation is in progress on it: it is borrowed by the operation)
   | .idle, .delTimer s | .done _, .delTimer s =>
-      match st.tslot s with
-      | some _ => some (disarm st s)
-      | none => none
-  | .idle, .del _ | .done _, .del _ => some st
+      if st.user s = none then
+        match st.tslot s with
+        | some _ => some (disarm st s)
+        | none => none
+      else none
+  | .idle, .del s | .done _, .del s => if st.user s = none then some st else none
   | .idle, _ | .done _, _ => none
   | .reset s, _ => some { st with flag := upd st.flag s 0, upc := upd st.upc c (.sys s true) }
   | .sys s first, .sysAgain rg ld =>
@@ -230,7 +254,8 @@ def ustep (st : St) (c : Co) : UPc → Env → Option St
       else
         some { st with upc := upd st.upc c (.wait s), loc := upd st.loc c (.tail st.nk), nk := st.nk + 1,
                        waitFrom := upd st.waitFrom c st.now,
-                       kpc := upd st.kpc st.nk (match st.dur c with
+                       kpc := upd st.kpc st.nk (if st.regFirst && st.opReg c then .reg0 s c true
+                                                else match st.dur c with
                                                 | some _ => .start s c (st.opReg c)
                                                 | none => .store s c (st.opReg c)) }
   | .wait _, .resume =>
@@ -248,7 +273,9 @@ def ustep (st : St) (c : Co) : UPc → Env → Option St
 def xtakeStep (st : St) (s : Sock) : St :=
   match st.slot s with
   | none => st
-  | some c' => schedule { st with slot := upd st.slot s none } c'
+  | some c' =>
+      if st.fixDis then schedule (disarm { st with slot := upd st.slot s none } s) c'
+      else schedule { st with slot := upd st.slot s none } c'
 
 def kstep (st : St) (k : Kt) : KPc → Env → Option St
   | .off, _ => none
@@ -257,6 +284,7 @@ def kstep (st : St) (k : Kt) : KPc → Env → Option St
       | some d =>
           some { st with tm := upd st.tm st.nextTm (.armed s), deadline := upd st.deadline st.nextTm (st.now + d),
                          armedAt := upd st.armedAt st.nextTm st.now, tdur := upd st.tdur st.nextTm d,
+                         lastArm := upd st.lastArm s (some st.nextTm),
                          nextTm := st.nextTm + 1, kpc := upd st.kpc k (.set s c r st.nextTm) }
       | none => some { st with kpc := upd st.kpc k (.store s c r) }
   | .set s c r t, _ => some { st with tslot := upd st.tslot s (some t), kpc := upd st.kpc k (.store s c r) }
@@ -264,7 +292,8 @@ def kstep (st : St) (k : Kt) : KPc → Env → Option St
       some { st with slot := upd st.slot s (some c), loc := upd st.loc c (.slot s), lastStore := upd st.lastStore s k,
                      kpc := upd st.kpc k (.load s c r) }
   | .load s c r, _ =>
-      some { st with kpc := upd st.kpc k (if st.flag s ≠ 0 then .take s else if r then .reg s c else .off) }
+      some { st with kpc := upd st.kpc k (if st.flag s ≠ 0 then .take s else if r then (if st.regFirst then .chk2 s c else .reg s c)
+                                          else .off) }
   | .take s, _ =>
       match st.slot s with
       | none => some { st with kpc := upd st.kpc k .off }
@@ -281,6 +310,18 @@ def kstep (st : St) (k : Kt) : KPc → Env → Option St
       | none => some { st with kpc := upd st.kpc k .off }
       | some s => some { st with cio := upd st.cio c none, kpc := upd st.kpc k (.xtake s) }
   | .xtake s, _ => some { xtakeStep st s with kpc := upd st.kpc k .off }
+  | .reg0 s c r, _ =>
+      some { st with cio := upd st.cio c (some s),
+                     kpc := upd st.kpc k (match st.dur c with | some _ => .start s c r | none => .store s c r) }
+  | .chk2 s c, _ => some { st with kpc := upd st.kpc k (if st.cbit c then .own s else .off) }
+  | .own s, _ =>
+      match st.slot s with
+      | none => some { st with kpc := upd st.kpc k .off }
+      | some c' =>
+          match st.tslot s with
+          | none => some (schedule { st with slot := upd st.slot s none, kpc := upd st.kpc k .off } c')
+          | some _ => some { st with slot := upd st.slot s none, loc := upd st.loc c' (.heldK k), kpc := upd st.kpc k (.ownDis s c') }
+  | .ownDis s c', _ => some (schedule (disarm { st with kpc := upd st.kpc k .off } s) c')
 
 def wstep (st : St) (w : Wk) : WPc → Env → Option St
   | .idle, .deliver s bits =>
@@ -291,7 +332,8 @@ def wstep (st : St) (w : Wk) : WPc → Env → Option St
   | .idle, .fire t =>
       if st.deadline t ≤ st.now then
         match st.tm t with
-        | .armed s => some { st with tm := upd st.tm t .gone, tslot := upd st.tslot s none, wpc := upd st.wpc w (.fTake s t) }
+        | .armed s => some { st with tm := upd st.tm t .gone, tslot := upd st.tslot s none, lastFire := upd st.lastFire s w,
+                                     wpc := upd st.wpc w (if st.fixFlag then .fOr s t else .fTake s t) }
         | .disarmed => some { st with tm := upd st.tm t .gone }
         | _ => none
       else none
@@ -305,6 +347,9 @@ def wstep (st : St) (w : Wk) : WPc → Env → Option St
           | none => some (schedule { st with slot := upd st.slot s none, wpc := upd st.wpc w .idle } c)
           | some _ => some { st with slot := upd st.slot s none, loc := upd st.loc c (.heldW w), wpc := upd st.wpc w (.sDis s c) }
   | .sDis s c, _ => some (schedule (disarm { st with wpc := upd st.wpc w .idle } s) c)
+  | .fOr s t, _ =>
+      some { st with flag := upd st.flag s (st.flag s ||| timeoutBit), lastFetch := upd st.lastFetch s w,
+                     wpc := upd st.wpc w (.fTake s t) }
   | .fTake s t, _ =>
       match st.slot s with
       | none => some { st with wpc := upd st.wpc w .idle }
@@ -330,16 +375,23 @@ def step (st : St) (a : Actor) (e : Env) : Option St :=
   | .w i => wstep st i (st.wpc i) e
   | .env => estep st e
 
-/-- `co` : which callers are coroutines (the others are plain threads that go through their proxy coroutine) -/
-def init (co : Co → Bool) : St :=
+/-- `co` : which callers are coroutines (the others are plain threads that go through their proxy coroutine);
+    `ff`, `fd` : which code (see `St.fixFlag`, `St.fixDis`) -/
+def initCfg (ff fd : Bool) (co : Co → Bool) : St :=
   { flag := fun _ => 0, slot := fun _ => none, tslot := fun _ => none, user := fun _ => none,
     avail := fun _ => false, pend := fun _ => false, now := 0,
     tm := fun _ => .free, deadline := fun _ => 0, nextTm := 0,
     upc := fun _ => .idle, isCo := co, opReg := fun _ => false, dur := fun _ => none,
     cbit := fun _ => false, cio := fun _ => none, para := fun _ => false, queued := fun _ => false,
     kpc := fun _ => .off, nk := 0, wpc := fun _ => .idle,
-    loc := fun _ => .run, dup := false, bad := false, lastStore := fun _ => 0, lastFetch := fun _ => 0,
+    fixFlag := ff, fixDis := fd, regFirst := false,
+    loc := fun _ => .run, dup := false, bad := false, lastStore := fun _ => 0, lastFetch := fun _ => 0, lastFire := fun _ => 0, lastArm := fun _ => none,
     armedAt := fun _ => 0, tdur := fun _ => 0, firedBy := fun _ => 0, waitFrom := fun _ => 0 }
+
+/-- the code of /repo HEAD (all io fixes in) -/
+def init (co : Co → Bool) : St := initCfg true true co
+/-- the pinned tree: no IO_FLAG_TIMEOUT, cancel leaves the timer armed -/
+def initPinned (co : Co → Bool) : St := initCfg false false co
 
 /-- every finite schedule: disabled choices are skipped, so `∀ sched` is every interleaving with every environment -/
 def run (st : St) : List (Actor × Env) → St
